@@ -1,49 +1,30 @@
-"""Entry point: ./check <ID> [--tier quick|thorough] [--replay FILE]."""
+"""Entry point: ./check <ID> [--tier quick|thorough] [--replay FILE].
+
+The check itself runs in a WORKER sub-process; this process only supervises it.  The code under check must RETURN: a
+numba loop that never ends holds the GIL and cannot be interrupted from inside the process (three runs against seeded
+changes spun for hours), so the supervisor enforces a budget from outside.  A quick tier takes 1-4 minutes and a
+thorough tier at most ~1 h on this machine; the budgets are 1 h / 12 h (HITEN_VERIF_WATCHDOG_S overrides).  On expiry
+the worker's Python stack is dumped (faulthandler, SIGUSR1), the worker's process group is killed and the run is
+reported as  VIOLATION ... key=nontermination  (exit 1).
+"""
 import argparse
 import importlib
+import json
 import os
+import signal
+import subprocess
 import sys
+import time
 import traceback
 
 sys.path.insert(0, os.path.dirname(os.path.abspath(__file__)))
 
 
-def main():
-    ap = argparse.ArgumentParser()
-    ap.add_argument("pid")
-    ap.add_argument("--tier", default=os.environ.get("VERIF_TIER", "quick"))
-    ap.add_argument("--replay", default=None)
-    a = ap.parse_args()
+def worker(a):
+    import faulthandler
+    faulthandler.register(signal.SIGUSR1, all_threads=True, chain=False)
     os.environ["VERIF_TIER"] = a.tier
     import common
-    # Watchdog: the code under check must RETURN.  A quick tier takes 1-4 minutes and a thorough tier at most ~1 h on this
-    # machine; if the process is still running 15-60 times later, the library call it is stuck in (numba loops cannot be
-    # interrupted from Python) is reported as non-termination instead of hanging the caller forever.
-    budget = float(os.environ.get("HITEN_VERIF_WATCHDOG_S", 3600 if a.tier == "quick" else 12 * 3600))
-
-    def expired():
-        import faulthandler
-        import json
-        import time
-        faulthandler.dump_traceback(file=sys.stderr, all_threads=True)
-        common.REPLAYS.mkdir(exist_ok=True)
-        path = common.REPLAYS / f"{a.pid}-nontermination.json"
-        path.write_text(json.dumps({"property": a.pid, "key": "nontermination", "tier": a.tier, "budget_s": budget,
-                                    "written": time.strftime("%Y-%m-%dT%H:%M:%S"),
-                                    "message": "the check did not finish within its watchdog budget; the Python stack at "
-                                               "expiry was printed on stderr"}, indent=1))
-        print(f"VIOLATION property={a.pid} replay={path}", flush=True)
-        print(f"  key=nontermination :: {a.pid} {a.tier} still running after {budget:.0f} s (normal: minutes)", flush=True)
-        try:
-            import subprocess
-            subprocess.run(["pkill", "-P", str(os.getpid())], timeout=10)      # TLC children
-        except Exception:  # noqa
-            pass
-        os._exit(1)
-    import threading
-    wd = threading.Timer(budget, expired)
-    wd.daemon = True
-    wd.start()
     try:
         mod = importlib.import_module(a.pid.lower())
         rc = mod.main(tier=a.tier, replay=a.replay)
@@ -56,6 +37,59 @@ def main():
         rc = 2
     sys.stdout.flush()
     sys.exit(rc)
+
+
+def supervise(a, argv):
+    budget = float(os.environ.get("HITEN_VERIF_WATCHDOG_S", 3600 if a.tier == "quick" else 12 * 3600))
+    p = subprocess.Popen([sys.executable, os.path.abspath(__file__), "--worker"] + argv, start_new_session=True)
+
+    def forward(sig, _frame):           # Ctrl-C / kill of the supervisor takes the worker (and its TLC children) along
+        try:
+            os.killpg(p.pid, signal.SIGKILL)
+        except Exception:  # noqa
+            pass
+        sys.exit(130)
+    signal.signal(signal.SIGINT, forward)
+    signal.signal(signal.SIGTERM, forward)
+    try:
+        rc = p.wait(timeout=budget)
+        sys.exit(rc if rc >= 0 else 2)
+    except subprocess.TimeoutExpired:
+        pass
+    try:
+        os.kill(p.pid, signal.SIGUSR1)              # Python stack of the stuck worker on stderr
+        time.sleep(2.0)
+    except Exception:  # noqa
+        pass
+    try:
+        os.killpg(p.pid, signal.SIGKILL)
+    except Exception:  # noqa
+        pass
+    verif = os.path.dirname(os.path.dirname(os.path.abspath(__file__)))
+    os.makedirs(os.path.join(verif, "replays"), exist_ok=True)
+    path = os.path.join(verif, "replays", f"{a.pid}-nontermination.json")
+    with open(path, "w") as f:
+        json.dump({"property": a.pid, "key": "nontermination", "tier": a.tier, "budget_s": budget,
+                   "written": time.strftime("%Y-%m-%dT%H:%M:%S"),
+                   "message": "the check did not finish within its watchdog budget; the Python stack of the worker at expiry "
+                              "was printed on stderr (the innermost frame is the library call that does not return)"}, f, indent=1)
+    print(f"VIOLATION property={a.pid} replay={path}", flush=True)
+    print(f"  key=nontermination :: {a.pid} {a.tier} still running after {budget:.0f} s (normal: minutes)", flush=True)
+    sys.exit(1)
+
+
+def main():
+    ap = argparse.ArgumentParser()
+    ap.add_argument("pid")
+    ap.add_argument("--tier", default=os.environ.get("VERIF_TIER", "quick"))
+    ap.add_argument("--replay", default=None)
+    ap.add_argument("--worker", action="store_true")
+    argv = [x for x in sys.argv[1:] if x != "--worker"]
+    a = ap.parse_args()
+    if a.worker:
+        worker(a)
+    else:
+        supervise(a, argv)
 
 
 if __name__ == "__main__":
